@@ -1,5 +1,5 @@
 (* C04 — elements reported as issuer-authenticated are bound to the signed MSO.  Pinned statements only. *)
-From Isomdl Require Import Lib.Bytes Lib.Cbor Lib.Sha2 Model.Cose Model.ReaderAuth Spec.ReaderAuthSpec Proofs.ReaderAuthProofs.
+From Isomdl Require Import Lib.Bytes Lib.Cbor Lib.Sha2 Gen.Constants Model.Cose Model.ReaderAuth Spec.ReaderAuthSpec Proofs.ReaderAuthProofs.
 Open Scope N_scope.
 
 (* whenever issuer authentication is Valid: the MSO (read from the signed payload) names this
@@ -21,3 +21,25 @@ Theorem C04_digest_input : forall alg item,
   iso_item_digest (match alg with Sha256 => 256 | Sha384 => 384 | Sha512 => 512 end) item.
 Proof. intros [] item; reflexivity. Qed.
 Print Assumptions C04_digest_input.
+
+(* WHICH document: a response may carry several documents.  The document whose elements the reader reports is
+   the document it authenticated — the first one of the mDL docType, for every list of documents — so the
+   binding above is about the reported elements and not about some other document of the same response.
+   (The two look-ups are separate in reader.rs; the translator checks on every run that both are still the
+   first-match look-up by this docType: item reader_document_lookup, literal copied into Gen.) *)
+Theorem C04_reported_document_is_authenticated : forall (docs : list rdoc),
+  reported_document docs = authenticated_document docs.
+Proof. exact reported_is_authenticated. Qed.
+Print Assumptions C04_reported_document_is_authenticated.
+
+Theorem C04_document_selection : forall (docs : list rdoc) (d : rdoc),
+  authenticated_document docs = Some d ->
+  In d docs /\ rd_doc_type d = mdl_doc_type /\
+  exists pre post, docs = pre ++ d :: post /\ Forall (fun x => rd_doc_type x <> mdl_doc_type) pre.
+Proof. exact select_document_first. Qed.
+Print Assumptions C04_document_selection.
+
+(* the docType literal of the source is the model's *)
+Theorem C04_document_doc_type_literal : reader_document_doc_type = mdl_doc_type.
+Proof. exact eq_refl. Qed.
+Print Assumptions C04_document_doc_type_literal.
